@@ -83,13 +83,13 @@ func (t *tr) recvChain(e ast.Expr) (path string, ord int, ok bool) {
 		if t.p.info.Uses[id] != t.recvObj {
 			return "", 0, false
 		}
-		return sel.Sel.Name, idx, true
+		return sel.Sel.Name, (idx + 1) * 1000, true
 	}
 	pp, po, pok := t.recvChain(sel.X)
-	if !pok {
-		return "", 0, false
+	if !pok || po%1000 != 0 {
+		return "", 0, false // (only one level of indirection: the order key has two components)
 	}
-	return pp + "." + sel.Sel.Name, po*1000 + idx, true
+	return pp + "." + sel.Sel.Name, po + idx + 1, true
 }
 
 func isStructPtr(ty types.Type) bool {
